@@ -247,6 +247,21 @@ LimitInstants ==
 LimitDt == kind = "lim" /\ stage = 1 /\ \E n \in LimitInstants : Finish(IsoPrintCodes(n, "ns"), "dt", "lim-dt")
 LimitDu == kind = "lim" /\ stage = 1 /\ \E n \in LimitInstants : Finish(DurPrintCodes(n, "ns"), "du", "lim-du")
 
+\* --- extreme component counts of durations: for every designator (W D H M S) a single component whose count is at /
+\* just above  L div k  for L in {2^63-1, 2^63, 2^64-1} and every factor k by which a count may get multiplied on its way
+\* to a target (7, 24, 60, 168, 1440, 3600, 10080, 86400, 604800, each also times 10^3, 10^6, 10^9), plus 2^64-1, 2^64,
+\* 10^19 and 10^20-1, with both signs.  An unchecked multiplication anywhere between the parsed count and the target
+\* representation wraps for one of these (e.g. P2635249153387078803W: count * 7 exceeds 2^64).
+ExtremeUnitChains == {<<>>, <<7>>, <<24>>, <<60>>, <<168>>, <<1440>>, <<3600>>, <<10080>>, <<86400>>, <<86400, 7>>}
+ExtremeTickChains == {<<>>, <<1000>>, <<1000, 1000>>, <<1000, 1000, 1000>>}
+ExtremeCounts ==
+  UNION {{AddSmall(DivModChain(lim, uc \o tc).q, dd) : dd \in {0, 1}} : lim \in {I64Max, Pow2(63), U64Max}, uc \in ExtremeUnitChains, tc \in ExtremeTickChains}
+  \cup {U64Max, AddSmall(U64Max, 1), Pow10(19), AddSmall(Pow10(20), -1)}
+DuExtreme ==
+  /\ kind = "lim" /\ stage = 1
+  /\ \E n \in ExtremeCounts, ds \in {ChW, ChD, ChH, ChM, ChS}, neg \in BOOLEAN :
+        Finish((IF neg THEN <<ChMinus>> ELSE <<>>) \o <<ChP>> \o (IF ds \in {ChW, ChD} THEN <<>> ELSE <<ChT>>) \o NatCodes(n.mag) \o <<ds>>, "du", "du-extreme")
+
 \* --- fractions: every digit string of 1..FracLen digits, boundary patterns and seeded long ones -------
 FracPrefixDt == <<49, 57, 55, 48, 45, 48, 49, 45, 48, 49, 84, 48, 48, 58, 48, 48, 58, 48, 48, 46>>   \* 1970-01-01T00:00:00.
 FracPrefixDu == <<80, 84, 48, 46>>                                                                  \* PT0.
@@ -303,7 +318,7 @@ MutateAlias ==
 Next ==
   \/ DtYearP \/ DtSepYM \/ DtMonthP \/ DtSepMD \/ DtDayP \/ DtSepDT \/ DtHourP \/ DtSepHM \/ DtMinP \/ DtSepMS \/ DtSecP \/ DtFracP \/ DtEndP
   \/ DuSignP \/ DuPP \/ DuWeeksP \/ DuDaysP \/ DuTP \/ DuHoursP \/ DuMinutesP \/ DuSecondsP \/ DuEndP
-  \/ Calendar \/ CalendarFeb \/ LimitDt \/ LimitDu
+  \/ Calendar \/ CalendarFeb \/ LimitDt \/ LimitDu \/ DuExtreme
   \/ FracDigit \/ FracEndDt \/ FracEndDu \/ FracSeededDt \/ FracSeededDu \/ FracBoundaryDt \/ FracBoundaryDu
   \/ Mutate \/ MutateAlias
 
